@@ -37,6 +37,9 @@ type c18Scenario struct {
 	created func(i int) int64
 	// stamp: the timestamp text of record j of container i, when it is not the regular one ("" = regular)
 	stamp func(i, j int) string
+	// light: explored under the quick tier's bounds in the thorough tier too (two selections of three containers each,
+	// or many steps: every interleaving, or two deviations among hundreds of choice points, is out of reach)
+	light bool
 	query   string
 	params  logqlengine.EvalParams
 }
@@ -58,9 +61,9 @@ var c18Scenarios = []c18Scenario{
 	{name: "sumby-3", n: 3, query: `sum by (container_image) (count_over_time({}[2s]))`, params: c18Range()},
 	// grouped topk with two groups, one of them holding two series (values pairwise distinct: no ties to break); windows
 	// longer than the step; a ratio of two vectors of three series each
-	{name: "topk-groups-3", n: 3, msg: func(i, j int) string { return strings.Repeat("x", 1+i) }, query: `topk by (container_image) (1, bytes_over_time({}[4s]))`, params: c18Range()},
-	{name: "count-sliding-3", n: 3, query: `count_over_time({}[3s])`, params: logqlengine.EvalParams{Start: otelstorage.Timestamp(1 * c18sec), End: otelstorage.Timestamp(6 * c18sec), Step: time.Second, Limit: -1}},
-	{name: "ratio-3", n: 3, query: `sum by (container) (count_over_time({} |= "-1" [4s])) / sum by (container) (count_over_time({}[4s]))`, params: c18Range()},
+	{name: "topk-groups-3", n: 3, light: true, msg: func(i, j int) string { return strings.Repeat("x", 1+i) }, query: `topk by (container_image) (1, bytes_over_time({}[4s]))`, params: c18Range()},
+	{name: "count-sliding-3", n: 3, light: true, query: `count_over_time({}[3s])`, params: logqlengine.EvalParams{Start: otelstorage.Timestamp(1 * c18sec), End: otelstorage.Timestamp(6 * c18sec), Step: time.Second, Limit: -1}},
+	{name: "ratio-3", n: 3, light: true, query: `sum by (container) (count_over_time({} |= "-1" [4s])) / sum by (container) (count_over_time({}[4s]))`, params: c18Range()},
 	{name: "binop-2", n: 2, query: `sum by (container) (count_over_time({}[2s])) * sum by (container) (count_over_time({} |= "m"[4s]))`, params: c18Range()},
 	{name: "colliding-labels-2", n: 2, query: `{a_b=~".+"}`, params: c18Log(), labels: func(i int) map[string]string {
 		return map[string]string{"a.b": "dot", "a-b": "dash", "a/b": "slash"}
@@ -422,12 +425,16 @@ func c18Run(r *vkit.Run) {
 	}
 	for _, sc := range c18Scenarios {
 		if sc.n <= 3 {
-			if r.Thorough() || sc.name == "log-3" || sc.name == "binop-2" || sc.name == "colliding-labels-2" {
+			if (r.Thorough() && !sc.light) || sc.name == "log-3" || sc.name == "binop-2" || sc.name == "colliding-labels-2" {
 				emit(c18Input{Scenario: sc.name, Mode: "threads"})
 			} else {
 				emit(c18Input{Scenario: sc.name, Mode: "bound-threads", Bound: 2})
 			}
-			emit(c18Input{Scenario: sc.name, Mode: "joint", Bound: joint})
+			if sc.light {
+				emit(c18Input{Scenario: sc.name, Mode: "joint", Bound: 1})
+			} else {
+				emit(c18Input{Scenario: sc.name, Mode: "joint", Bound: joint})
+			}
 		}
 		for _, p := range c18Perms(sc.n) {
 			emit(c18Input{Scenario: sc.name, Mode: "perm", Perm: p})
